@@ -1425,7 +1425,7 @@ Theorem loopir_arcovar_marple_order0 :
   end.
 Proof. intros. rewrite prog_arcovar_marple_is_ref. apply arcovar_marple_ir_order0; assumption. Qed.
 """),
-    'modcovar_marple': (['loopir_modcovar_marple_order0'], """
+    'modcovar_marple': (['loopir_modcovar_marple_order0', 'loopir_modcovar_marple_order1'], """
 Lemma prog_modcovar_marple_is_ref : prog_modcovar_marple = prog_modcovar_marple_gen0.
 Proof. reflexivity. Qed.
 Theorem loopir_modcovar_marple_order0 :
@@ -1437,6 +1437,15 @@ Theorem loopir_modcovar_marple_order0 :
   | None => OErr ValueError
   end.
 Proof. intros. rewrite prog_modcovar_marple_is_ref. apply modcovar_marple_ir_order0; assumption. Qed.
+Theorem loopir_modcovar_marple_order1 :
+  forall (F : Type) (OF : Ops F) (L : Laws OF) (feq : F -> F -> bool) (stop : Z -> F -> F -> bool) (t : bool) (x : list F),
+  x <> [] ->
+  run feq stop prog_modcovar_marple [Some (VArr t x); Some (VI 1)] =
+  match modcovar_marple x 1 with
+  | Some (a, p) => ORet [VArr false a; VF p; VArr false [p]]
+  | None => OErr ValueError
+  end.
+Proof. intros. rewrite prog_modcovar_marple_is_ref. apply modcovar_marple_ir_order1; assumption. Qed.
 """),
 }
 
